@@ -401,7 +401,7 @@ def required_labels(tier):
 
 
 def phases(tier, seed):
-    n = 6400 if tier == 'quick' else 40000
+    n = 6400 if tier == 'quick' else 200000
     return [
         Enum('scale-grid', scale_grid, exhaustive=True,
              note='29 scales x light on/off x 3 symbols x 4 kinds; SVG alpha values; EPS/PDF channel values'),
